@@ -20,8 +20,9 @@ from vlib import common as C
 META = {
     'property_id': 'C06',
     'technique': 'Lean 4 theorems (name injectivity, exact lookup, cache soundness, last-writer/isolation by induction over '
-                 'all builder histories, receiver = argument 0) about a hand model of goom\'s method-mocking path, tied to the code '
-                 'by differential execution of generated histories on a generated type corpus against the real binary symbol table',
+                 'all builder histories incl. kept handles re-armed after Cancel/Reset, receiver = argument 0, refinement of the '
+                 'patch-level model by the handle-level model) about a hand model of goom\'s method-mocking path, tied to the code '
+                 'by differential execution of generated multi-step histories on a generated type corpus against the real binary symbol table',
     'level': 'proof',
     'level_text': 'Partial: proved for every symbol table, method set, history and receiver value that (1) the symbol names goom builds '
                   '(typeName + bracket rule + objName; ExportStruct) equal the linker form pkg.T.m / pkg.(*T).m and are injective in '
@@ -29,7 +30,10 @@ META = {
                   'shapes never collide; (2) lookup is exact-or-error; (3) the per-builder caches never hand out another type\'s mocker; '
                   '(4) after any history a method runs the callback of the last step that named exactly its code and every method no step '
                   'named keeps its original behaviour; (5) a mocked method enters the callback with the caller\'s receiver as argument 0 for '
-                  'every instance. Observed, not proved: the linker\'s naming, reflect\'s method table, compiler wrappers / shape bodies / '
+                  'every instance; (6) for every history of the handle-level model (kept Struct(..).Method / ExportMethod / ExportStruct(..).Method '
+                  'handles with Apply, Return, Returns, When..Return, As(..).Return, Cancel, re-arming, Reset) a method no lookup names is never '
+                  'patched, Apply on a handle hits exactly its target, and on one-shot histories the handle-level model refines the patch-level one. '
+                  'Observed, not proved: the linker\'s naming, reflect\'s method table, compiler wrappers / shape bodies / '
                   'devirtualisation, register preservation by the entry jump.',
     'level_note': 'Corpus obeys the README rule that the instance handed to Struct() has the receiver kind of the method (a value method '
                   'mocked through a pointer instance only patches the (*T).m wrapper). Instantiations of EQUAL GC shape share one body, so '
@@ -208,7 +212,7 @@ def emit_sources(types, gens, entries, outdir):
     for e in entries:
         call = f'CallE{e["id"]}' if e['pk'] == 'pa' else f'{PKGS[e["pk"]][2]}.CallE{e["id"]}'
         reg.append(f'\t{{ID: {e["id"]}, Pkg: "{e["pkg"]}", T: "{e["T"]}", Ptr: {"true" if e["ptr"] else "false"}, M: "{e["m"]}", '
-                   f'K: {e["K"]}, NP: {e["np"]}, Call: {call}, Mock: mockE{e["id"]}}},')
+                   f'K: {e["K"]}, NP: {e["np"]}, Call: {call}, Look: lookE{e["id"]}, Cb: cbE{e["id"]}, StandIn: standInE{e["id"]}}},')
     reg.append('}')
     d = os.path.join(outdir, 'pa')
     fp = os.path.join(d, 'reg_gen_test.go')
@@ -266,48 +270,69 @@ def call_func(e):
 
 
 def mock_func(e):
-    """mockE<id>(b, via, pkg, raw, m, k): installs callback k through the requested API path with e's static types."""
+    """Per entry: tmplE<id> (template instance for Struct), lookE<id> (the lookup through the requested API path),
+    cbE<id> (typed callback number k), standInE<id> (typed stand-in for As)."""
     ps = PARAMS[e['np']][0]
+    pl = (', ' + ps) if ps else ''
     argok = ['true', 'x == w.WantX', 'x == w.WantX && s == w.WantS'][e['np']]
     lay = e['layout']
+    i = e['id']
     visible = e['pk'] == 'pa' or e['exported_type']
-    L = [f'func mockE{e["id"]}(b *mocker.Builder, via, pkg, raw, m string, k int) {{']
+    L = []
+    real_cb = real_si = None
     if visible:
         T = go_type(e, 'pa')
         if e['generic']:
             recv_ok = '(unsafe.Pointer(r) == w.WantPtr && r.A == w.WantA)' if e['ptr'] else '(r.A == w.WantA)'
+            filled = f'{T}{{A: 5}}'
         elif e['ptr']:
             recv_ok = f'(unsafe.Pointer(r) == w.WantPtr && w.Lay{lay}(*r) == w.Want{lay})'
+            filled = f'{T}{{{LAYOUTS[lay][1](5)}}}'
         else:
             recv_ok = f'(w.Lay{lay}(r) == w.Want{lay})'
+            filled = f'{T}{{{LAYOUTS[lay][1](5)}}}'
         rt = ('*' if e['ptr'] else '') + T
-        inst = ('&' if e['ptr'] else '') + T + '{}'
-        cb = f'func(r {rt}{", " + ps if ps else ""}) int64 {{ w.Hit(k, {recv_ok}, {argok}); return w.Sentinel }}'
-        L += ['\tswitch via {', '\tcase "SM":', f'\t\tb.Struct({inst}).Method(m).Apply({cb})', '\t\treturn',
-              '\tcase "SX":', f'\t\tb.Struct({inst}).ExportMethod(m).Apply({cb})', '\t\treturn', '\t}']
-    else:
-        L += ['\tif via == "SM" || via == "SX" {', '\t\tpanic("type not visible to the probe")', '\t}']
-    # by package + name, with a fake receiver of the same layout (README 3.2)
-    if e['generic']:
-        L += ['\tpanic("ExportStruct on a generic instantiation is not generated")', '}', '']
-        return '\n'.join(L)
-    if e['ptr']:
-        frecv, fok = f'*w.Lay{lay}', f'(unsafe.Pointer(r) == w.WantPtr && *r == w.Want{lay})'
-    else:
-        frecv, fok = f'w.Lay{lay}', f'(r == w.Want{lay})'
-    fcb = f'func(r {frecv}{", " + ps if ps else ""}) int64 {{ w.Hit(k, {fok}, {argok}); return w.Sentinel }}'
-    L += ['\tif via == "EC" {', f'\t\tb.ExportStruct(raw).Method(m).Apply({fcb})', '\t\treturn', '\t}',
-          f'\tb.Pkg(pkg).ExportStruct(raw).Method(m).Apply({fcb})', '}', '']
+        real_cb = f'func(r {rt}{pl}) int64 {{ w.Hit(k, {recv_ok}, {argok}); return w.Sentinel }}'
+        real_si = f'func(_ {rt}{pl}) int64 {{ return 0 }}'
+        L += [f'func tmplE{i}(tmpl string) interface{{}} {{', '\tswitch tmpl {']
+        if e['ptr']:
+            L += ['\tcase "n":', f'\t\treturn (*{T})(nil)', '\tcase "w":', f'\t\treturn new({T})', '\tcase "f":', f'\t\treturn &{filled}', '\t}',
+                  f'\treturn &{T}{{}}', '}', '']
+        else:
+            L += ['\tcase "f":', f'\t\treturn {filled}', '\t}', f'\treturn {T}{{}}', '}', '']
+    fake_cb = fake_si = None
+    if not e['generic']:
+        if e['ptr']:
+            frecv, fok = f'*w.Lay{lay}', f'(unsafe.Pointer(r) == w.WantPtr && *r == w.Want{lay})'
+        else:
+            frecv, fok = f'w.Lay{lay}', f'(r == w.Want{lay})'
+        fake_cb = f'func(r {frecv}{pl}) int64 {{ w.Hit(k, {fok}, {argok}); return w.Sentinel }}'
+        fake_si = f'func(_ {frecv}{pl}) int64 {{ return 0 }}'
+    L += [f'func lookE{i}(b *mocker.Builder, via, pkg, raw, m, tmpl string) interface{{}} {{', '\tswitch via {']
+    if visible:
+        L += ['\tcase "SM":', f'\t\treturn b.Struct(tmplE{i}(tmpl)).Method(m)', '\tcase "SX":', f'\t\treturn b.Struct(tmplE{i}(tmpl)).ExportMethod(m)']
+    if not e['generic']:
+        L += ['\tcase "EC":', '\t\treturn b.ExportStruct(raw).Method(m)', '\tcase "ES":', '\t\treturn b.Pkg(pkg).ExportStruct(raw).Method(m)']
+    L += ['\t}', '\tpanic("probe: API path not generated for this entry")', '}', '']
+    for name, real, fake in ((f'cbE{i}(via string, k int)', real_cb, fake_cb), (f'standInE{i}(via string)', real_si, fake_si)):
+        L.append(f'func {name} interface{{}} {{')
+        if fake:
+            L += ['\tif via == "ES" || via == "EC" {', f'\t\treturn {fake}', '\t}']
+        if real:
+            L.append(f'\treturn {real}')
+        else:
+            L.append('\tpanic("probe: type not visible")')
+        L += ['}', '']
     return '\n'.join(L)
 
 
 # ------------------------------------------------------------------ operations
 
-def step_tok(via, e, m=None, raw=None, pkg=None):
+def step_tok(via, e, m=None, raw=None, pkg=None, tmpl=None):
     m = e['m'] if m is None else m
     pkg = e['pkg'] if pkg is None else pkg
     if via in ('SM', 'SX'):
-        return f'{via}~{pkg}~{e["T"]}~{1 if e["ptr"] else 0}~{m}~{e["id"]}'
+        return f'{via}~{pkg}~{e["T"]}~{1 if e["ptr"] else 0}~{m}~{e["id"]}' + (f'~{tmpl}' if tmpl else '')
     raw = (('*' if e['ptr'] else '') + e['T']) if raw is None else raw
     return f'{via}~{pkg}~{raw}~{m}~{e["id"]}'
 
@@ -415,6 +440,86 @@ def gen_hists(tier, rng, entries):
                 steps.append(step_tok(rng.choice(vs), e))
         if steps:
             H.append(('random', steps))
+    # lane 6: template instances handed to Struct(..): typed nil pointer, new(T), filled value (goom only looks at the type)
+    tm = [e for e in entries if e['pk'] == 'pa' or e['exported_type']]
+    for e in tm[::(5 if tier == 'quick' else 2)]:
+        for tmpl in (('n', 'w', 'f') if e['ptr'] else ('f',)):
+            for via in [v for v in vias_for(e) if v in ('SM', 'SX') and not (e['generic'] and v == 'SX')]:
+                other = rng.choice(entries)
+                ov = [v for v in vias_for(other) if not (other['generic'] and v == 'SX')]
+                steps = [step_tok(via, e, tmpl=tmpl)]
+                if ov and other['id'] != e['id'] and call_sym(other) != call_sym(e):
+                    steps.append(step_tok(rng.choice(ov), other))      # a second mock that the final Reset must remove, too
+                H.append(('template', steps))
+                H.append(('template', [f'L~0~{step_tok(via, e, tmpl=tmpl)}', 'A~0', 'C~0', 'T~0~9000001' if via == 'SM' or not e['generic'] else 'A~0']))
+    # lane 7: kept handles, realistic multi-step use of ONE method mocker
+    val = lambda n: str(9000000 + n)
+    def hlanes(e, via):
+        lk = f'L~0~{step_tok(via, e)}'
+        P = [
+            ('rearm-after-cancel', [lk, f'T~0~{val(1)}', 'C~0', f'T~0~{val(2)}']),
+            ('rearm-after-reset', [lk, f'T~0~{val(1)}', 'R', f'T~0~{val(2)}']),
+            ('rearm-apply', [lk, 'A~0', 'C~0', 'A~0']),
+            ('return-apply-return', [lk, f'T~0~{val(3)}', 'A~0', f'T~0~{val(4)}']),
+            ('apply-return-cancel', [lk, 'A~0', f'T~0~{val(5)}', 'C~0']),
+            ('returns-seq', [lk, f'S~0~{val(6)}~{val(7)}']),
+            ('return-return', [lk, f'T~0~{val(8)}', f'T~0~{val(9)}']),
+            ('relookup', [lk, f'T~0~{val(10)}', f'L~1~{step_tok(via, e)}', 'A~1', f'L~2~{step_tok(via, e)}', f'T~2~{val(11)}']),
+            ('reset-rearm-apply', [lk, 'A~0', 'R', f'S~0~{val(12)}~{val(13)}', 'A~0']),
+        ]
+        if via == 'SM' and e['np'] >= 1 and not e['generic']:
+            P += [
+                ('returns-when', [lk, f'SW~0~{val(20)}~{val(21)}~1~{val(22)}']),
+                ('returns-when-nomatch', [lk, f'SW~0~{val(23)}~{val(24)}~0~{val(25)}']),
+                ('when-only', [lk, f'W~0~1~{val(26)}']),
+                ('return-when', [lk, f'T~0~{val(27)}', f'W~0~0~{val(28)}', f'W~0~1~{val(29)}']),
+                ('when-cancel-when', [lk, f'W~0~1~{val(30)}', 'C~0', f'W~0~1~{val(31)}']),
+                ('returns-then-when', [lk, f'S~0~{val(32)}~{val(33)}', f'W~0~1~{val(34)}', 'C~0', f'SW~0~{val(35)}~{val(36)}~1~{val(37)}']),
+            ]
+        return P
+    cand = [(e, via) for e in entries for via in vias_for(e) if not (e['generic'] and via != 'SM')]
+    take = cand[::(7 if tier == 'quick' else 2)]
+    for e, via in take:
+        for tag, steps in hlanes(e, via):
+            H.append(('handle:' + tag, steps))
+    # lane 8: random handle histories on up to three different methods (one kept handle per method; no one-shot on them)
+    nh = 150 if tier == 'quick' else 3000
+    for _ in range(nh):
+        picks = []
+        while len(picks) < 1 + rng.below(3):
+            e, via = rng.choice(cand)
+            if all(call_sym(e) != call_sym(o) for o, _ in picks):
+                picks.append((e, via))
+        steps = [f'L~{h}~{step_tok(via, e)}' for h, (e, via) in enumerate(picks)]
+        has_default = [False] * len(picks)
+        for _ in range(2 + rng.below(6)):
+            h = rng.below(len(picks))
+            e, via = picks[h]
+            r = rng.below(10)
+            n = 100 + len(steps) * 3
+            if r < 2:
+                steps.append(f'A~{h}'); has_default[h] = False
+            elif r < 4:
+                steps.append(f'T~{h}~{val(n)}'); has_default[h] = True
+            elif r == 4:
+                steps.append(f'S~{h}~{val(n)}~{val(n + 1)}'); has_default[h] = True
+            elif r == 5:
+                steps.append(f'C~{h}'); has_default[h] = False
+            elif r == 6:
+                steps.append('R'); has_default = [False] * len(picks)
+            elif via == 'SM' and e['np'] >= 1 and not e['generic']:
+                if r == 7:
+                    steps.append(f'W~{h}~1~{val(n)}')
+                elif r == 8 and has_default[h]:
+                    steps.append(f'W~{h}~0~{val(n)}')
+                elif r == 9:
+                    steps.append(f'SW~{h}~{val(n)}~{val(n + 1)}~{rng.below(2)}~{val(n + 2)}'); has_default[h] = True
+            else:
+                o = rng.choice(entries)     # an unrelated one-shot mock in between
+                ov = [v for v in vias_for(o) if not (o['generic'] and v == 'SX')]
+                if ov and all(call_sym(o) != call_sym(pe) for pe, _ in picks):
+                    steps.append(step_tok(rng.choice(ov), o))
+        H.append(('handle:random', steps))
     # lane 5: the C06-K1 follow-up, oracle only (the Lean model does not cover a patched generic wrapper)
     gex = [e for e in entries if e['generic'] and e['m'][0].isupper()]
     for e in gex[:4 if tier == 'quick' else 20]:
@@ -423,7 +528,8 @@ def gen_hists(tier, rng, entries):
 
 
 def parse_obs(obs):
-    """'r=a,b hit=i:k:r+:a+,.. after=clean' -> (results, {id: (k, recv_ok, args_ok) | 'corrupt'}, after)"""
+    """'r=a,b hit=<tok>,.. after=clean' -> (results, {entry id: {'t': [t0,t1,t2], 'rok':.., 'aok':..}}, after).
+    hit token: `i:k:r+:a+` (callback k on all three instances) or `i:t0/t1/t2` with t = o | k<k> | s<v> | p | x."""
     if obs is None or not obs.startswith('r='):
         return None
     m = re.match(r'^r=(\S*) hit=(\S*) after=(\S+)$', obs)
@@ -433,12 +539,15 @@ def parse_obs(obs):
     hits = {}
     for h in filter(None, m.group(2).split(',')):
         f = h.split(':')
-        hits[int(f[0])] = 'corrupt' if f[1] == 'corrupt' else (int(f[1]), f[2] == 'r+', f[3] == 'a+')
+        if len(f) == 4:
+            hits[int(f[0])] = {'t': ['k' + f[1]] * 3, 'rok': f[2] == 'r+', 'aok': f[3] == 'a+'}
+        else:
+            hits[int(f[0])] = {'t': f[1].split('/'), 'rok': True, 'aok': True}
     return res, hits, m.group(3)
 
 
 def step_target(tok, entries, index):
-    """Which entry does a step NAME according to the property (independent of the Lean model)?  None for malformed."""
+    """Which entry does a lookup NAME according to the property (independent of the Lean model)?  None for malformed."""
     f = tok.split('~')
     if f[0] in ('SM', 'SX'):
         key = (f[1], f[2], f[3] == '1', f[4])
@@ -454,67 +563,108 @@ def step_target(tok, entries, index):
 
 
 def oracle(steps, obs, entries, index):
-    """The property on the implementation's observation.  Returns (why | None, finding key | None, notes)."""
+    """The property on the implementation's observation, by a property-level reading of the history that does not use the
+    Lean model: a method is *currently mocked* by the last arming call (Apply / Return / Returns / When..Return) on a lookup
+    that names it, until its handle is cancelled or the builder reset; everything else runs its original body; after the
+    final Reset everything does.  Returns (why | None, finding key | None, notes)."""
     p = parse_obs(obs)
     if p is None:
         return f'no usable observation: {obs}', None, {}
     res, hits, after = p
     notes = collections.Counter()
     if len(res) != len(steps):
-        return 'result list does not match the steps', None, notes
-    expect = {}          # entry id -> callback that must run
-    allowed = {}         # entry id -> callback that may run (same shape body)
-    gap = False
+        return f'result list does not match the steps: {obs[:200]}', None, notes
+    name = lambda e: f'{e["pkg"]}.{e["go"]}.{e["m"]}'
+    armed = {}        # call symbol -> {'kind': 'cb'|'stub', 'k': step, 'vals': set, 'targets': set(entry ids)}
+    handles = {}      # handle -> entry or None
+    gaps = []         # (step, entry): by-name step on a generic instantiation (known finding C06-K1)
+    byname_generic = set()
     for k, tok in enumerate(steps):
-        if tok == 'R':
-            expect, allowed = {}, {}
+        f = tok.split('~')
+        op = f[0]
+        if op == 'R':
+            if res[k] != 'ok':
+                return f'builder Reset answered {res[k]}', None, notes
+            armed = {}
             continue
+        if op == 'L':
+            e = step_target('~'.join(f[2:]), entries, index)
+            handles[f[1]] = e if res[k] == 'ok' else None
+            if e is not None and res[k] != 'ok':
+                return f'step {k} `{tok}` looks up an existing method with the right receiver kind but was answered {res[k]}', None, notes
+            continue
+        if op in ('A', 'T', 'S', 'W', 'SW', 'C'):
+            e = handles.get(f[1])
+            if e is None:
+                continue
+            sym = call_sym(e)
+            if res[k] != 'ok':
+                return f'step {k} `{tok}` on a handle of {name(e)} was answered {res[k]}', None, notes
+            cur = armed.get(sym)
+            if op == 'C':
+                armed.pop(sym, None)
+            elif op == 'A':
+                armed[sym] = {'kind': 'cb', 'k': k, 'vals': set(), 'targets': {e['id']}}
+            else:
+                if op == 'T':
+                    vals = f[2:3]
+                elif op == 'S':
+                    vals = f[2:4]
+                elif op == 'W':
+                    vals = f[3:4] if f[2] == '1' else []
+                else:
+                    vals = f[2:4] + (f[5:6] if f[4] == '1' else [])
+                if cur is not None and cur['kind'] == 'stub' and cur['k_handle'] == f[1]:
+                    cur['vals'].update(vals)
+                else:
+                    armed[sym] = {'kind': 'stub', 'k': k, 'vals': set(vals), 'targets': {e['id']}, 'k_handle': f[1]}
+            continue
+        # one-shot: lookup + Apply(callback k)
         e = step_target(tok, entries, index)
         if e is None:
             continue
-        byname = not tok.startswith('SM')
-        if e['generic'] and byname:
-            gap = True      # known gap: by-name on a generic instantiation
+        if e['generic'] and op != 'SM':
+            gaps.append((k, e))
+            byname_generic.add(e['id'])
             continue
         if res[k] != 'ok':
             return f'step {k} `{tok}` names an existing method with the right receiver kind but was answered {res[k]}', None, notes
-        expect[e['id']] = k
-        if e['generic']:
-            for o in entries:
-                if o['generic'] and o['id'] != e['id'] and call_sym(o) == call_sym(e):
-                    allowed[o['id']] = k
+        armed[call_sym(e)] = {'kind': 'cb', 'k': k, 'vals': set(), 'targets': {e['id']}}
     for i, h in hits.items():
-        if h == 'corrupt':
-            return f'method #{i} {entries[i]["go"]}.{entries[i]["m"]} returns neither its original value nor a callback result', None, notes
-        k, rok, aok = h
-        if i in expect and expect[i] == k or (i in allowed and allowed[i] >= expect.get(i, -1) and allowed[i] == k):
-            if not rok:
-                return f'callback {k} for {entries[i]["go"]}.{entries[i]["m"]} did not receive the caller\'s receiver unchanged as first argument', None, notes
-            if not aok:
-                notes['dictshift' if entries[i]['generic'] else 'args-differ'] += 1
-            if i in allowed and i not in expect:
-                notes['same-shape-sibling-mocked'] += 1
-            continue
-        if i in expect:
-            return f'{entries[i]["go"]}.{entries[i]["m"]} runs callback {k}, but the last step naming it is {expect[i]}', None, notes
-        return (f'{entries[i]["pkg"]}.{entries[i]["go"]}.{entries[i]["m"]} was replaced (callback {k}) although no step names it '
-                f'(steps: {" ; ".join(steps)})'), None, notes
-    for i, k in expect.items():
-        if i not in hits:
-            # a later step on a same-shape sibling legitimately overwrites the shared body
-            if entries[i]['generic'] and any(call_sym(entries[j]) == call_sym(entries[i]) and kk > k for j, kk in expect.items() if j != i):
-                continue
-            poisoned = entries[i]['generic'] and any(
-                tk != 'R' and not tk.startswith('SM') and step_target(tk, entries, index) is entries[i] for tk in steps[:k])
-            return (f'{entries[i]["pkg"]}.{entries[i]["go"]}.{entries[i]["m"]} named by step {k} still runs its original body',
-                    'generic-byname' if poisoned else None, notes)
+        e = entries[i]
+        a = armed.get(call_sym(e))
+        if a is None:
+            return (f'{name(e)} does not run its original body ({"/".join(h["t"])}) although no step currently mocks it '
+                    f'(steps: {" ; ".join(steps)})'), None, notes
+        if a['kind'] == 'cb':
+            if h['t'] != ['k%d' % a['k']] * 3:
+                return f'{name(e)} shows {"/".join(h["t"])} on its three instances, but it is currently mocked by the callback of step {a["k"]}', None, notes
+            if not h['rok']:
+                return f'callback {a["k"]} for {name(e)} did not receive the caller\'s receiver unchanged as first argument', None, notes
+            if not h['aok']:
+                notes['dictshift' if e['generic'] else 'args-differ'] += 1
+        else:
+            badv = [t for t in h['t'] if not (t.startswith('s') and t[1:] in a['vals'])]
+            if badv:
+                return (f'{name(e)} shows {"/".join(h["t"])} on its three instances, but it is currently stubbed (step {a["k"]}) '
+                        f'to return one of {sorted(a["vals"])}'), None, notes
+        if i not in a['targets']:
+            if not (e['generic'] and any(call_sym(entries[j]) == call_sym(e) for j in a['targets'])):
+                return f'{name(e)} is replaced but was not named', None, notes
+            notes['same-shape-sibling-mocked'] += 1
+    for sym, a in armed.items():
+        for i in a['targets']:
+            if i not in hits:
+                e = entries[i]
+                poisoned = e['generic'] and i in byname_generic
+                return (f'{name(e)} currently mocked by step {a["k"]} still runs its original body',
+                        'generic-byname' if poisoned else None, notes)
     if after != 'clean':
-        return 'after Reset some method does not run its original body', None, notes
-    if gap:
-        unhit = [tok for k, tok in enumerate(steps) if tok != 'R' and (lambda e: e is not None and e['generic'] and not tok.startswith('SM')
-                                                                 and not (e['id'] in hits and hits[e['id']] != 'corrupt' and hits[e['id']][0] == k))(step_target(tok, entries, index))]
-        if unhit:
-            return ('by-name mock of a method of a generic instantiation does not replace it: ' + unhit[0]), 'generic-byname', notes
+        return 'after Reset some method does not run its original body (or Reset itself failed)', None, notes
+    for k, e in gaps:
+        h = hits.get(e['id'])
+        if not (h and h['t'] == ['k%d' % k] * 3):
+            return f'by-name mock of a method of a generic instantiation does not replace it: {steps[k]}', 'generic-byname', notes
     return None, None, notes
 
 
